@@ -165,7 +165,7 @@ def runScript (N : Numerals Nat) : List Op → Nat → List (Cfg Nat) → List S
         match c.update N kvs with
         | .ok c' => runScript N ops (i + 1) (modifyCfg sec (fun _ => c') cs) errs
         | .error e =>
-          runScript N ops (i + 1) (modifyCfg sec (fun c => (c.updateFields N kvs).asDict false) cs)
+          runScript N ops (i + 1) (modifyCfg sec (fun c => (c.updateFields N kvs).asDict true) cs)
             ((toString i ++ showErr e) :: errs)
 
 def showSaved (ss : List (String × Sect)) : String :=
